@@ -188,6 +188,10 @@ impl Scenario for S2h {
                                 "mutating and clearing a clone"
                             }
                         };
+                        if h.registers().len() != m {
+                            viol.push(v("hll/registers-changed-without-add", step, format!("b = {}: {} left {} registers instead of {}", b, what, h.registers().len(), m)));
+                            return;
+                        }
                         if h.registers() != &inc[..] {
                             let j = (0..m).find(|&j| h.registers()[j] != inc[j]).unwrap();
                             viol.push(v("hll/registers-changed-without-add", step, format!("b = {}: {} changed register {} from {} to {}", b, what, j, inc[j], h.registers()[j])));
@@ -214,6 +218,10 @@ impl Scenario for S2h {
                     let j = model_update(&mut inc, b, hv);
                     if hv >> b == 0 {
                         stats.probe("rest_all_zero");
+                    }
+                    if h.registers().len() != m {
+                        viol.push(v("hll/register-rule", step, format!("b = {}: the sketch holds {} registers instead of 2^b = {}", b, h.registers().len(), m)));
+                        return;
                     }
                     if h.registers()[j] != inc[j] {
                         viol.push(v("hll/register-rule", step, format!("b = {}: after adding hash {:#018x} register {} holds {}, the statement's rule gives {}", b, hv, j, h.registers()[j], inc[j])));
